@@ -534,10 +534,15 @@ def gen_dropin(rng, tier):
         if not base_ir["rulesets"]:
             continue
         base = ir_to_doc(rng, base_ir)
-        target = rng.choice(base_ir["rulesets"])
-        nm = target["name"] if rng.random() < 0.85 else rng.choice(["nope", "", target["name"] + " "])
-        dr = rand_ir_ruleset(rng, rng.choice([0.0, 0.0, 0.2, 0.5]), dropin=True, name=nm)
-        dir_ = {"rulesets": [dr] if rng.random() < 0.95 else [], "prekill_hooks": []}
+        # one file may carry several drop-in rulesets (each is compiled against the base on its own: an unknown target,
+        # an unnamed ruleset or a bad plugin in ANY of them rejects the whole file - also after an earlier one was fine)
+        drs = []
+        p_bad = rng.choice([0.0, 0.0, 0.2, 0.5])
+        for _ in range(rng.choice([1, 1, 1, 2, 2, 3])):
+            target = rng.choice(base_ir["rulesets"])
+            nm = target["name"] if rng.random() < 0.85 else rng.choice(["nope", "", target["name"] + " "])
+            drs.append(rand_ir_ruleset(rng, p_bad, dropin=True, name=nm))
+        dir_ = {"rulesets": drs if rng.random() < 0.95 else [], "prekill_hooks": []}
         if rng.random() < 0.2:
             dir_["prekill_hooks"].append({"name": rng.choice(["dummy_prekill_hook", "nope"]), "args": rng.choice([{}, {"cgroup": "a"}, {"bogus": "1"}])})
         ddoc = ir_to_doc(rng, dir_, stringly=rng.random() < 0.7)
